@@ -207,7 +207,8 @@ ReleaseH(S, op, k, h, st) ==
 Destroy(S) ==
   [S EXCEPT !.up = FALSE, !.susp = "destroy", !.rank = 2, !.leakop = "-", !.hnd = <<>>, !.hdir = {}, !.refs = <<>>, !.num = <<>>, !.at = <<>>, !.ghost = {}, !.taint = {}, !.slack = 0, !.seen = {}, !.succ = <<>>, !.nameoff = <<>>, !.offname = <<>>]
 
-\* init answered st
+\* init answered st. After destroy it opens the next session. A second INIT without a DESTROY changes nothing the client
+\* holds: inodes, counts and open handles stay as they are (handles stay valid and distinct); only DESTROY releases them.
 Inited(S, st) == IF st = "OK" THEN [S EXCEPT !.up = TRUE] ELSE S
 
 \* which operation a surplus found at a quiescent point is blamed on (a label for the reader; model-checking
